@@ -304,5 +304,6 @@ func New(config ...Config) fiber.Handler {
 
 // Check if request has directive
 func hasRequestDirective(c fiber.Ctx, directive string) bool {
-	return strings.Contains(c.Get(fiber.HeaderCacheControl), directive)
+	// directive names are case-insensitive (RFC 9111 5.2)
+	return strings.Contains(utils.ToLower(c.Get(fiber.HeaderCacheControl)), directive)
 }
